@@ -23,6 +23,10 @@ Record entry := MkEntry { e_name : string; e_pos : nat; e_class : klass }.
 Definition blamed (k : klass) : bool :=
   match k with BlamePos | BlameNeg => true | _ => false end.
 
+(* the function under the contract is the blamed party *)
+Definition blamed_pos (k : klass) : bool :=
+  match k with BlamePos => true | _ => false end.
+
 Definition is_value (k : klass) : bool := match k with Value => true | _ => false end.
 
 Definition is_seq (e : entry) : bool :=
@@ -34,7 +38,7 @@ Definition not_from_source (k : klass) : bool :=
 (* a primop entry: `seq` must see through the seal, everything else must blame *)
 Definition primop_ok (e : entry) : bool :=
   if is_seq e then is_value (e_class e)
-  else blamed (e_class e) || not_from_source (e_class e).
+  else blamed_pos (e_class e) || not_from_source (e_class e).
 
 Definition tail_ok (e : entry) : bool :=
   match e_class e with
